@@ -14,9 +14,12 @@ examples/206-mutating-webhook and the path comment in pkg/webhook/admission/conf
     no request, request of the wrong type, wrong content type);
   * the scripted outcome of every hook process: exit code x bytes written to $VALIDATING_RESPONSE_PATH (nothing,
     blank, truncated JSON, wrong types, array, bad base64, null, {}, or a valid response over allowed x message x
-    warnings x patch[mutating only]);
+    warnings x patch[mutating only]); the way the process ends is exit 0, exit 1, or - after it wrote a valid
+    allowing response - termination by a signal (exit = -9: SIGKILL, -15: SIGTERM; the hook helper sends the signal
+    to itself): "did not exit with zero", so the answer must be a denial;
   * the machine S_Decode, S_Route, S_RunHook, S_Answer and the invariants FailClosed, UidEchoed, VerdictRelayed,
-    RightHookRuns, checked by TLC over every case; planted faults (MC_fault.cfg) show each invariant can fail.
+    RightHookRuns, checked by TLC over every case; planted faults (MC_fault.cfg) show each invariant can fail
+    (open-signal = a signalled hook is not a failed hook, the seeded change C14-m6).
 
 What the oracle demands of the real code, per case, with the expected answer computed by TLC:
   * allowed=true only where TLC's answer is an allow; a case without a request in the body may be answered with a
@@ -37,7 +40,8 @@ Excluded from the generated domain (statement silent or unsatisfiable), never co
   names with "/" are not generated; request paths with empty segments ("//") or a trailing slash; response files
   with trailing garbage, duplicate or differently-cased keys, unknown extra keys; a patch written by a
   validating hook; the patch of a denial; the message of an allow; the wording of the operator's own denials;
-  concurrent requests; hook processes that are killed or never end; failures of metrics/kubernetes-patch files.
+  concurrent requests; hook processes that never end or are killed before they wrote a response (same answer as
+  "nothing written"); failures of metrics/kubernetes-patch files.
 """
 import concurrent.futures
 import json
@@ -48,7 +52,8 @@ from vlib import Infra
 
 SPEC = "Admission"
 FAULTS = [("open-noresponse", "FailClosed"), ("open-fail", "FailClosed"), ("first-binding", "RightHookRuns"),
-          ("drop-warnings", "VerdictRelayed"), ("no-patchtype", "VerdictRelayed"), ("drop-uid", "UidEchoed")]
+          ("drop-warnings", "VerdictRelayed"), ("no-patchtype", "VerdictRelayed"), ("drop-uid", "UidEchoed"),
+          ("open-signal", "FailClosed")]
 
 
 def cfg_key(c):
@@ -129,7 +134,7 @@ def check_c14(ctx):
     ctx.log("TLC %s: %d states, all properties hold; %d cases exported (class %d of %d), %.0fs"
             % (cfgname, r["distinct"], len(cases), ctx.seed % mod, mod, r["wall_s"]))
     # 2. the properties are not vacuous: TLC finds each planted fault
-    done = planted_faults(ctx, FAULTS if not ctx.quick() else [FAULTS[ctx.seed % 2], FAULTS[2 + ctx.seed % 3], FAULTS[5]])
+    done = planted_faults(ctx, FAULTS if not ctx.quick() else [[FAULTS[6], FAULTS[0], FAULTS[1]][ctx.seed % 3], FAULTS[2 + ctx.seed % 3], FAULTS[5]])
     ctx.log("planted faults found by TLC: %s" % ", ".join(done))
     ctx.cov["planted_faults_detected_by_tlc"] = done
     # 3. replay on the real code
@@ -170,7 +175,7 @@ def check_c14(ctx):
             ctx.sample({"cfg": [(b["hook"], b["kind"], b["name"], b["path"]) for b in c["cfg"]], "req": c["req"],
                         "plan": {h: (p["exit"], p["text"]) for h, p in c["plan"].items()}, "expected": c["exp"], "runs": c["ran"]})
     ctx.assumptions += ["hook processes are the hookbin helper with scripted exit code / response file; the webhook router is served by "
-                        "net/http/httptest (the manager's own TLS listener is started on 127.0.0.1:0 with a run-time certificate but not used)",
+                        "net/http/httptest; a hook 'killed by a signal' is the helper sending SIGKILL / SIGTERM to itself after writing its files (the manager's own TLS listener is started on 127.0.0.1:0 with a run-time certificate but not used)",
                         "Validating/MutatingWebhookConfiguration objects go to kube-client's fake cluster",
                         "requests are sequential; consecutive cases of a configuration share one operator (stale state would show)"]
     vlib.finish(ctx, rule="cases = TLC states of spec/Admission (configuration x request x scripted hook outcomes) of the exported residue class of "
@@ -184,13 +189,13 @@ MANIFEST = {
     "C14": dict(text="spec/Admission (request decode, path -> (configurationId, webhookId) -> registered binding via the URL-safe name "
                      "transformation, hook run, response file classes, answer) is checked by TLC for FailClosed, UidEchoed, VerdictRelayed and "
                      "RightHookRuns over every configuration of <= 3 validating/mutating bindings on <= 2 hooks x request paths/bodies x hook "
-                     "outcomes. The cases, with the answer TLC computed, are replayed end to end on the real operator: real admission.WebhookManager "
+                     "outcomes (response file classes x exit 0 / exit 1 / killed by SIGKILL or SIGTERM after writing an allowing response). The cases, with the answer TLC computed, are replayed end to end on the real operator: real admission.WebhookManager "
                      "(Init/Start with a run-time certificate, configuration objects on a fake cluster), its chi router under httptest, the real "
                      "event handler closure of initValidatingWebhookManager, real hook processes; HTTP status, allowed, uid, status.message, warnings, "
                      "patch, patchType, the hook/binding context that ran and the registered webhook paths are compared.",
                 note="Quick: 5 binding names (one webhook-id collision, two names legal for mutating only), one of 5 residue classes of the 225 "
                      "configurations per seed plus, for every seed, the 8 two-hook configurations with one binding per hook in every kind "
-                     "combination (VV, MM, VM, MV) (~4.7-5.3 k cases). Thorough: 7 names, all 417 configurations (~40 k cases). Colliding webhook ids, "
+                     "combination (VV, MM, VM, MV) (~5.0-5.6 k cases). Thorough: 7 names, all 417 configurations (~45 k cases). Colliding webhook ids, "
                      "empty path segments, sloppy-but-parseable response files and concurrent requests are outside the domain (module docstring).",
                 technique="TLA+ reference machine enumerated and checked by TLC; case replay through the real HTTP handler, operator and hook processes",
                 design="5/C14"),
